@@ -174,12 +174,60 @@ def r3_rtg(ck, repo, nf):
     m = repo.method("rl_blox.algorithm.reinforce.EpisodeDataset", "prepare_policy_gradient_dataset")
     ck.need(m is not None, f"{cq} not found")
     calls = [c for c in ast.walk(m[1]) if isinstance(c, ast.Call) and dotted(c.func) == "discounted_reward_to_go"]
-    ok = len(calls) == 1 and isinstance(getattr(calls[0], "_parent", None), ast.ListComp) and ast.unparse(calls[0]._parent.generators[0].iter) == "self._rewards()"
-    ck.ob("R4-per-trajectory", cq, "per-episode-returns", ok, f"{short(calls[0]._parent) if calls else None}", "" if ok else "reward-to-go must be computed per episode (list of per-episode reward lists)", loc(m[1]._module, m[1]))
+    if len(calls) != 1:
+        raise AnalysisError(f"{cq}: expected one discounted_reward_to_go call, found {len(calls)}")
+    par = getattr(calls[0], "_parent", None)
+    # the call is applied element-wise to a collection of per-episode reward lists: comprehension or loop over `self._rewards()` (or a
+    # local holding it); applying it once to everything concatenated would accumulate across episode boundaries
+    per_episode = None
+    it_src = None
+    if isinstance(par, (ast.ListComp, ast.GeneratorExp)) and len(par.generators) == 1:
+        it_src = par.generators[0].iter
+        per_episode = isinstance(par.generators[0].target, ast.Name) and dotted(calls[0].args[0]) == par.generators[0].target.id
+    else:
+        anc = par
+        while anc is not None and not isinstance(anc, (ast.For, ast.FunctionDef)):
+            anc = getattr(anc, "_parent", None)
+        if isinstance(anc, ast.For) and isinstance(anc.target, ast.Name) and dotted(calls[0].args[0]) == anc.target.id:
+            it_src, per_episode = anc.iter, True
+    if per_episode is None:
+        a0 = calls[0].args[0] if calls[0].args else None
+        if isinstance(a0, ast.Call) and "concatenate" in (dotted(a0.func) or "") or (isinstance(a0, ast.Call) and dotted(a0.func) in ("sum", "itertools.chain", "chain")):
+            per_episode = False
+        else:
+            raise AnalysisError(f"{cq}: application of discounted_reward_to_go `{short(calls[0], 70)}` not recognised")
+    src_txt = ast.unparse(it_src) if it_src is not None else ""
+    if per_episode and it_src is not None and isinstance(it_src, ast.Name):
+        mcfg = nf.cfg_of(m[1])
+        ds = mcfg.defs_of(mcfg.node_of(calls[0]).id, it_src.id)
+        if len(ds) == 1 and ds[0].value is not None:
+            src_txt = ast.unparse(ds[0].value)
+    ok = bool(per_episode) and "self._rewards()" in src_txt
+    if per_episode and "self._rewards()" not in src_txt and "episode" not in src_txt:
+        raise AnalysisError(f"{cq}: reward-to-go is computed over `{src_txt[:60]}` (unrecognised idiom)")
+    ck.ob("R4-per-trajectory", cq, "per-episode-returns", ok, f"{short(par) if par is not None else None}", "" if ok else "reward-to-go must be computed per episode (one call per episode's reward list)", loc(m[1]._module, m[1]))
     rw = repo.method("rl_blox.algorithm.reinforce.EpisodeDataset", "_rewards")[1]
-    txt = " ".join(ast.unparse(s) for s in rw.body)
-    ok = "rewards.append([r for _, _, _, r in episode])" in txt
-    ck.ob("R4-per-trajectory", cq, "rewards-grouped-by-episode", ok, txt[:120], "" if ok else "_rewards must return one list per episode", loc(rw._module, rw))
+    # _rewards returns one inner list per episode: nested comprehension / loop with an inner list; a single comprehension with two
+    # generators flattens the episodes
+    rets_ = [x for x in ast.walk(rw) if isinstance(x, ast.Return) and x.value is not None]
+    grouped = None
+    for x in ast.walk(rw):
+        if isinstance(x, ast.ListComp):
+            if len(x.generators) >= 2 and "episode" in ast.unparse(x.generators[0].iter):
+                grouped = False
+            elif len(x.generators) == 1 and isinstance(x.elt, (ast.ListComp, ast.List, ast.Call)) and "episodes" in ast.unparse(x.generators[0].iter):
+                grouped = True if grouped is None else grouped
+        if isinstance(x, ast.Call) and isinstance(x.func, ast.Attribute) and x.func.attr == "append" and x.args and isinstance(x.args[0], (ast.ListComp, ast.List, ast.Name)):
+            anc = getattr(x, "_parent", None)
+            while anc is not None and not isinstance(anc, (ast.For, ast.FunctionDef)):
+                anc = getattr(anc, "_parent", None)
+            if isinstance(anc, ast.For) and "episodes" in ast.unparse(anc.iter):
+                grouped = True if grouped is None else grouped
+        if isinstance(x, ast.Call) and isinstance(x.func, ast.Attribute) and x.func.attr == "extend":
+            grouped = False
+    if grouped is None:
+        raise AnalysisError("rl_blox.algorithm.reinforce.EpisodeDataset._rewards: structure of the returned collection not recognised")
+    ck.ob("R4-per-trajectory", cq, "rewards-grouped-by-episode", grouped, f"{short(rets_[0].value, 80) if rets_ else None}", "" if grouped else "_rewards must return one list per episode (a flat list makes the reward-to-go run across episode boundaries)", loc(rw._module, rw))
 
 
 def r4_callsites(ck, repo, nf):
